@@ -2,13 +2,13 @@
 from .. import common as C
 
 ID = "C09"
-MODULES = ["Helios.Props.C09", "Helios.Props.Facts", "Helios.Props.CodeRL"]
+MODULES = ["Helios.Props.C09", "Helios.Props.Facts", "Helios.Props.CodeRL", "Helios.Props.CodeWire"]
 THEOREMS = [
     "Helios.RL.window_bound_sharp", "Helios.RL.window_bound", "Helios.RL.burst_bound",
     "Helios.RL.isolation", "Helios.RL.isolation_frame", "Helios.RL.fresh_full",
     "Helios.RL.idle_refill",
             "Helios.Facts.rl_cutoff_eq", "Helios.Facts.extraction_clean",
-            "Helios.CodeTie.refillTokens_refines", "Helios.CodeTie.allow_refines", "Helios.CodeTie.translation_clean_rl"]
+            "Helios.CodeTie.refillTokens_refines", "Helios.CodeTie.allow_refines", "Helios.CodeTie.setupRateLimiter_refines", "Helios.CodeTie.rlEff_accepted", "Helios.CodeTie.translation_clean_wire", "Helios.CodeTie.translation_clean_rl"]
 CUTOFF = 3600 * 10**9
 CLIENTS = ["a", "b", "10.0.0.1", "[::1]", "x,y", "%20", "A"]
 
